@@ -37,6 +37,20 @@ def detach(v):
     return v
 
 
+def contains_ref(v):
+  """pg.Ref members: equality of containers across plain/symbolic form is not
+  part of the schema claim (a reference is a deliberate exception)."""
+  if isinstance(v, pg.Ref):
+    return True
+  if isinstance(v, pg.Symbolic):
+    return any(contains_ref(x) for x in v.sym_values())
+  if isinstance(v, (list, tuple)):
+    return any(contains_ref(x) for x in v)
+  if isinstance(v, dict):
+    return any(contains_ref(x) for x in v.values())
+  return False
+
+
 def is_missing(v):
   return isinstance(v, type(MISSING)) or v is MISSING or MISSING == v
 
@@ -92,7 +106,7 @@ def check_member(node, key, value, field, problems, where, tolerate_partial=Fals
                      f'{where}[{key!r}]={value!r:.120} is rejected by {spec!r:.120}: '
                      f'{type(e).__name__}: {e!s:.160}'))
     return
-  if not pg.eq(r, value):
+  if not contains_ref(value) and not pg.eq(r, value):
     problems.append(('not-fixpoint',
                      f'{where}[{key!r}]={value!r:.120} maps to {r!r:.120} under {spec!r:.100}'))
 
